@@ -167,6 +167,8 @@ pub fn compare_root(fen: &str, g: &Game, max_depth: u8, cap: u64, acc: &mut Acc)
         }
     };
     for (depth, got) in printed {
+        // iterations beyond 3 are an extra on roots where the unpruned tree is small: give up on them early
+        let cap = if depth > 3 && cap <= 2_000_000 { 300_000 } else { cap };
         let mut r = Reference { empty_node: false, nodes: 0, cap };
         let mut gc = g.clone();
         let want = match guarded(|| r.root(&mut gc, depth as i32)) {
@@ -177,7 +179,7 @@ pub fn compare_root(fen: &str, g: &Game, max_depth: u8, cap: u64, acc: &mut Acc)
             }
         };
         if r.nodes > cap {
-            acc.count("roots skipped: reference node cap hit (not compared, not covered)");
+            acc.count(if depth > 3 { "deeper iterations (4+) skipped: reference node cap hit (not compared, not covered)" } else { "roots skipped: reference node cap hit (not compared, not covered)" });
             return;
         }
         if r.empty_node {
@@ -224,7 +226,9 @@ pub fn run(tier: &str, seed: i64) -> Outcome {
         let open = ctx.space.starts_with("BFS");
         let nlegal = ctx.pos.legal().len();
         let fen = ctx.pos.fen6(false);
-        let dmax: u8 = if open { 2 } else if !q && nlegal <= 12 { 4 } else { 3 };
+        // deeper iterations where the unpruned reference is affordable: reductions and forward pruning (null move,
+        // late-move reductions) typically need >= 3 plies of remaining depth below the root before they engage
+        let dmax: u8 = if open { 2 } else if nlegal <= 6 { if q { 5 } else { 6 } } else if nlegal <= 12 { if q { 4 } else { 5 } } else if !q && nlegal <= 20 { 4 } else { 3 };
         compare_root(&fen, &g, dmax, 2_000_000, acc);
         if acc.samples.len() < 2 {
             acc.sample(json::obj(vec![("root", json::s(fen)), ("iterations", json::s(format!("1..={}", dmax)))]));
@@ -269,7 +273,7 @@ pub fn run(tier: &str, seed: i64) -> Outcome {
     reports.push(SpaceReport { name: format!("high-mobility roots ({} positions with 60-218 moves for one side, both sides to move, colour mirrors), iterations 1..={}", mob.len(), if q { 3 } else { 4 }), states: macc.states, exhaustive: true, note: format!("[{:.1}s]", t0.elapsed().as_secs_f64()) });
     acc.merge(macc);
     // the states counter of run_spaces counts visited roots; compare_root counts compared trees on top: keep both visible
-    let mut out = Outcome::new(acc, reports, "every root of the listed spaces x every depth 1..=3 (4 on roots with <= 12 moves, thorough; 1..=2 near middlegame roots) (iteration 1 on a fresh history table, later iterations on the history left by the earlier ones): the iterative-deepening driver with every table lookup forced to miss (node hook clears the table) must print, for every iteration, the value of an exhaustive unpruned negamax over the same tree with the same leaf rule, after clamping mate-range scores; trees containing a node with king but no generated move are skipped and counted");
+    let mut out = Outcome::new(acc, reports, "every root of the listed spaces x every depth 1..=3 (up to 4 on roots with <= 12 moves and 5 on roots with <= 6 moves; one more in the thorough tier; 1..=2 near middlegame roots) (iteration 1 on a fresh history table, later iterations on the history left by the earlier ones): the iterative-deepening driver with every table lookup forced to miss (node hook clears the table) must print, for every iteration, the value of an exhaustive unpruned negamax over the same tree with the same leaf rule, after clamping mate-range scores; trees containing a node with king but no generated move are skipped and counted");
     out.traces_validated = out.acc.transitions;
     if out.acc.counts.contains_key("roots skipped: reference node cap hit (not compared, not covered)") {
         out.caps.push("reference node cap 2e6 hit on some roots; those roots are not compared and not counted as covered".into());
